@@ -41,14 +41,14 @@ theorem walkKeysRev_succ (kvs : List (Bytes × α)) (hit : Bytes → α → Opti
       | some r => if r.next = [] then some r.items else (walkKeysRev kvs hit L f r.next).map (r.items ++ ·) := rfl
 
 /-- first page in reverse (offset branch, offset 0): the top of the section -/
-theorem first_page_rev (kvs : List (Bytes × α)) (h : Bytes → α → Bool) (L : Nat) (hL : 1 ≤ L) (hL' : L < two64) :
+theorem first_page_rev (kvs : List (Bytes × α)) (h : Bytes → α → Bool) (L : Nat) (hL : 1 ≤ L) (hL' : L + 1 < two64) :
     filtered kvs { key := [], limit := L, reverse := true } (fun k v => some (h k v)) =
       some { items := ((hitsOf h kvs.reverse).map (·.2)).take L,
              next := ((((hitsOf h kvs.reverse).map (·.1)).drop L).head?).getD [], total := 0 } := by
   have hne : ¬ (L = 0) := by omega
   simp only [filtered, hne, if_false, iter, Bool.not_true, Bool.false_eq_true, if_true, ne_eq, not_true_eq_false, and_false,
     Nat.lt_irrefl, false_and]
-  rw [addU64_zero_left L hL', offLoop_spec h 0 L kvs.reverse 0 [] (Nat.zero_le _)]
+  rw [addU64_zero_left L (by omega), offLoop_spec h 0 L hL' kvs.reverse 0 [] (Nat.zero_le _)]
   simp
 
 /-- a later page in reverse: the request key is the key of an entry that is not the top one -/
@@ -125,7 +125,7 @@ theorem walk_from_suffix_rev (kvs : List (Bytes × α)) (h : Bytes → α → Bo
 /-- **Complete, duplicate-free, in order — paging backward.**  With `reverse = true`, following `next_key`
 from a first request without key returns exactly the matching entries, each once, in descending key order. -/
 theorem walkKeysRev_complete (kvs : List (Bytes × α)) (h : Bytes → α → Bool) (L : Nat) (hs : Section kvs) (hL : 1 ≤ L)
-    (hL' : L < two64) :
+    (hL' : L + 1 < two64) :
     walkKeysRev kvs (fun k v => some (h k v)) L (kvs.length + 2) [] = some ((hitsOf h kvs.reverse).map (·.2)) := by
   rw [show kvs.length + 2 = (kvs.length + 1) + 1 from rfl, walkKeysRev_succ, first_page_rev kvs h L hL hL']
   simp only []
